@@ -74,6 +74,12 @@ FIXED = [
     ("C16", "C16/nested-archive-probed-in-working-directory", "2d601e8",
      "ZIP member inner.zip: zipfile.is_zipfile('inner.zip') and the index cache were evaluated relative to the working "
      "directory; reply depended on files outside the root, cache files created there (also C01)"),
+    ("C20", "C20/file-finalised-unclosed:mailbox-folder", "75b5c62",
+     "mbox/Maildir handlers never closed the mailbox: file left to the garbage collector on every folder listing and "
+     "message, also when the connection failed mid-response"),
+    ("C14", "C14/ForkingTCPServer:zip:empty-reply", "9c3b2ab",
+     "concurrent requests for one ZIP archive: concurrent rebuilds of the dbm.dumb index cache made shelve.open(...,'n') "
+     "raise SyntaxError/dbm.error (only OSError was caught): empty reply"),
 ]
 
 KNOWN = [
